@@ -91,7 +91,7 @@ def eval_impl(case):
 
 
 def model_case(w, case):
-    return [2, w.encode(), case["types"], w.n]
+    return [2, w.encode(), [model.canon_ty(t) for t in case["types"]], w.n]
 
 
 def pair_case(case, i, j):
